@@ -15,7 +15,7 @@ COLL_MUTANTS = [
     ('fub', {'Mut': 'no_vacate'}, 'C05'),
     ('fub_perp', {'Mut': 'lifo'}, 'C13'),
     ('mb', {'Mut': 'no_rearm', 'MaxPolls': 2}, 'ObligQueued'),
-    ('mu_perp', {'CursorFix': False, 'NC': 2, 'MaxItems': 1}, 'C13'),
+    ('mu_perp', {'CursorFix': False, 'NC': 2, 'MaxItems': 1}, 'C11|C13'),   # (the legacy loop breaks both; TLC reports the shorter one)
     ('mu', {'CursorFix': False}, 'C11'),
     ('bo', {'Mut': 'legacy_ordfill'}, 'C16'),
     ('tbu', {'Mut': 'legacy_tryhint', 'MaxPolls': 1}, 'C17'),
@@ -41,7 +41,7 @@ def main(ck, tier, seed):
         # (a) specification mutants
         for base, consts, clause in COLL_MUTANTS:
             r = ck.run_mc({'name': base + '_mut', 'base': base, 'consts': consts, 'invariants': plan.COLL_INVS + ['WindowSound'], 'expect': clause}, work)
-            hit = (not r['ok']) and (clause in (r.get('violated') or '') or any(c[0] == clause for c in r.get('viol_clauses', [])))
+            hit = (not r['ok']) and any(cl in (r.get('violated') or '') or any(c[0] == cl for c in r.get('viol_clauses', [])) for cl in clause.split('|'))
             report('Coll %s %s refuted (%s)' % (base, consts, clause), hit, str(r.get('viol_clauses') or r.get('violated'))[:80])
         for mu in ORDERED_MUTANTS:
             cfg = os.path.join(work, 'om.cfg')
